@@ -20,19 +20,16 @@ RULE = ("sessions = (backend in fock/gaussian/bosonic, 1-4 modes, 1-3 program se
         "patterns: one run([p1..pk]) call, successive run(pi) calls, one concatenated program, run-reset-run, "
         "re-run of the same Program objects on a new engine.  Commands: every gate class the back end applies or "
         "decomposes (30% daggered, 10% zero first parameter), preparations, loss, homodyne/Fock measurements with "
-        "select, feed-forward of measured values inside and (10%) across segments, New/Del, free parameters.  "
+        "select, feed-forward of measured values inside and (25% of the sessions) across segments, New/Del, free parameters.  "
         "Non-trivial = >=2 non-empty segments or a measurement/New/Del/daggered gate; distinct by session spec.")
 ASSUMPTIONS = [
     "the back end is a deterministic function of the API calls it receives (equal call traces => equal states); "
     "validated on every session by comparing the final states of the three patterns",
     "a back-end gate call with negated first parameter is the inverse of the call (Gate.apply's dagger rule); "
     "validated per natively applied gate class and back end on every run",
-    "every program's measured parameters read that program's own RegRefs (false today when two programs of a session "
-    "use q[m].par of the same mode: SymPy caches the symbol by name - known finding measuredpar-shared-symbol; such "
-    "sessions are excluded from the trace correspondence, not from the oracle)",
     "shots = 1, hbar = 2; TDM programs, batching and the TensorFlow back end are outside the model",
-    "theorem concat_compositional_partial assumes the hand-over gives the second segment the values it reads "
-    "(false today for cross-segment feed-forward: known finding) and a non-bosonic back end (known finding)",
+    "theorem concat_compositional_partial assumes a non-bosonic back end (bosonic: known finding) and structural "
+    "well-formedness of the programs (open measured dependencies refer to subsystems of the first program's register)",
 ]
 TRUSTED = ["modelled: BaseEngine._run / LocalEngine._run_program / BosonicBackend.run_prog prologue / reset, "
            "Operation.apply / Measurement.apply / Gate.apply / Gate.decompose, Program.compile (simulator compilers), "
@@ -150,6 +147,23 @@ def gen_mismatch(rng, backend):
     segs = [first] + mid + [last]
     return dict(backend=backend, n=n, opts=OPTS[backend], segs=segs, args={}, mismatch=True,
                 succ=[False] + [True] * len(mid) + [False])
+
+
+def gen_evolving(rng, backend):
+    """three or four successor programs whose register changes in a middle segment (New or Del): every later
+    program can follow its predecessor only, not the first program"""
+    n = rng.randint(2, 3)
+    g = lambda m: dict(cls="Rgate", regs=[m], pars=[pg.dyadic(rng, -6, 6, nonzero=True)], dagger=rng.random() < 0.3)
+    d = lambda m: dict(cls="Dgate", regs=[m], pars=[pg.dyadic(rng, -2, 2, nonzero=True) / 2, 0.25])
+    if rng.random() < 0.5:
+        change, live = dict(cls="New", k=1), list(range(n + 1))
+    else:
+        dead = rng.randrange(n)
+        change, live = dict(cls="Del", regs=[dead]), [m for m in range(n) if m != dead]
+    segs = [[d(rng.randrange(n))], [g(rng.randrange(n)), change], [d(rng.choice(live)), g(rng.choice(live))]]
+    if rng.random() < 0.4:
+        segs.append([g(rng.choice(live))])
+    return dict(backend=backend, n=n, opts=OPTS[backend], segs=segs, args={}, succ=[False] + [True] * (len(segs) - 1))
 
 
 def cross_deps(spec):
@@ -336,22 +350,12 @@ def one_session(ctx, sf, spec, reqs, pending, kinds=("list", "seq", "cat", "rese
     for pat in kinds:
         if pat == "cat" and spec.get("mismatch"):
             continue
-        try:
-            if pat == "cat":
-                progs = [er.build_concat(sf, spec)]
-                script = [dict(run=[0])]
-            else:
-                progs = er.build_segments(sf, spec)
-                script = sc[pat]
-        except IndexError as e:     # RegRefError
-            if type(e).__name__ == "RegRefError" and any(isinstance(p, dict) and "m" in p for sg in spec["segs"] for o in sg
-                                                        for p in o.get("pars", [])):
-                # SymPy hands out a cached expression whose MeasuredParameter still points to the RegRef of an
-                # older program (same root cause as the known finding): the program cannot even be built
-                ctx.fail("measuredpar-shared-symbol", f"{backend}: building a program that uses q[m].par raised RegRefError "
-                         f"('{e}') because the cached symbol belongs to another program", rp)
-                return
-            raise
+        if pat == "cat":
+            progs = [er.build_concat(sf, spec)]
+            script = [dict(run=[0])]
+        else:
+            progs = er.build_segments(sf, spec)
+            script = sc[pat]
         real = exec_script(sf, spec, progs, script)
         results[pat] = real
         ctx.tally(f"pattern:{pat}:" + (real["err"] or "ok"))
@@ -365,11 +369,7 @@ def one_session(ctx, sf, spec, reqs, pending, kinds=("list", "seq", "cat", "rese
             ctx.fail("run-arguments-mutated", f"{backend}: run changed the caller's " +
                      ("args" if not real["args_ok"] else "compile_options") + " dictionary", rp)
         # ---- (B) model
-        if ctx.proof_ok and modelled(spec) and pat != "cat" and shared_measured_symbol(spec):
-            # known finding measuredpar-shared-symbol: the SymPy symbol q<m> of an earlier-built program points to
-            # the RegRef of the latest-built one; the model assumes every program reads its own RegRefs
-            ctx.tally("corr:skipped (shared measured-parameter symbol)")
-        elif ctx.proof_ok and modelled(spec):
+        if ctx.proof_ok and modelled(spec):
             reqs.append(model_request(spec, script, real["outcomes"], concat=(pat == "cat")))
             pending.append((dict(case, pattern=pat), real))
     # ---- (C) a measurement with `select` leaves exactly the selected value in its RegRef (concatenated program)
@@ -410,14 +410,8 @@ def one_session(ctx, sf, spec, reqs, pending, kinds=("list", "seq", "cat", "rese
         ctx.tally("oracle:random outcomes (states not compared)")
         return
     ne = sum(1 for s in spec["segs"] if s)
-    cross = cross_deps(spec)
-    shared = shared_measured_symbol(spec)
 
     def sig_for(a, b):
-        if "cat" in (a, b) and cross:
-            return "handover-samples"
-        if "cat" in (a, b) and shared:
-            return "measuredpar-shared-symbol"
         if "cat" in (a, b) and backend == "bosonic" and ne >= 2:
             return "bosonic-segment-reinit"
         if backend == "bosonic" and "reset" in (a, b) and ne >= 2:
@@ -445,7 +439,7 @@ def one_session(ctx, sf, spec, reqs, pending, kinds=("list", "seq", "cat", "rese
         if not d < STATE_TOL:
             ctx.fail(sig_for(ref, pat), f"{backend}: final state of pattern '{pat}' differs from '{ref}' by {d:.3g}", rp)
     # list vs seq must agree on every back end, whatever the defects above
-    if "list" in results and "seq" in results and results["list"]["err"] != results["seq"]["err"] and not shared:
+    if "list" in results and "seq" in results and results["list"]["err"] != results["seq"]["err"]:
         ctx.fail(f"compositional:list-vs-seq:{backend}", f"{backend}: run([p..]) " +
                  (f"raises {results['list']['err']}" if results["list"]["err"] else "succeeds") + " but successive runs " +
                  (f"raise {results['seq']['err']}" if results["seq"]["err"] else "succeed"), rp)
@@ -847,9 +841,11 @@ def run(ctx, sf):
     n = ctx.n(24, 400)
     for k in range(n):
         for backend in ("gaussian", "fock", "bosonic"):
-            spec = gen_session(rng, backend, cross=(k % 10 == 9))
+            spec = gen_session(rng, backend, cross=(k % 4 == 3))
             if k % 6 == 5 and backend != "bosonic":
                 spec = gen_mismatch(rng, backend)
+            if k % 6 == 2 and backend != "bosonic":
+                spec = gen_evolving(rng, backend)
             one_session(ctx, sf, spec, reqs, pending)
             if k % 2 == 0:
                 reset_and_compile_checks(ctx, sf, spec)
